@@ -60,7 +60,8 @@ def restPhases (cfg : Cfg) (ord : List Path) (rs skc : Bool) (s1 s2 : List Chr) 
    else [.seq (cleanupLocks fixed cfg), .seq (globStage isSaveAux ord), .seq (globStage isRgAux ord)])
 
 theorem phases_eq (cfg : Cfg) (ord : List Path) (rs sk : Bool) (s1 s2 : List Chr) :
-    phases fixed cfg ord rs sk s1 s2 = .seq (paramsStage rs) :: restPhases cfg ord rs (sk || cfg.fromSaves) s1 s2 := by
+    phases fixed cfg ord rs sk s1 s2 =
+      .seq (paramsStage rs) :: .seq (refStage fixed cfg rs) :: restPhases cfg ord rs (sk || cfg.fromSaves) s1 s2 := by
   simp [phases, restPhases, fixed, unalOK]
 
 /-- from a state satisfying the invariant, everything after `.params` completes **for every pair of schedules**,
@@ -70,7 +71,8 @@ theorem rest_run_pool {cfg : Cfg} (wf : WF cfg) (ord : List Path) (hord : ord.No
     (hskrs : sk = true → rs = true) (hsk : sk = true → fs.has .lock = true)
     (hnsk : sk = false → cfg.fromSaves = false → rs = true → fs.has .lock = false)
     (hsv : cfg.fromSaves = true → SavesOK cfg fs)
-    (hnp0 : cfg.fromSaves = true → rs = false → ∀ c ∈ cfg.chrs, fs.has (.processed c) = false) :
+    (hnp0 : cfg.fromSaves = true → rs = false → ∀ c ∈ cfg.chrs, fs.has (.processed c) = false)
+    (href : refOK cfg fs = true) :
     Good cfg fs (runPhases (restPhases cfg ord rs (sk || cfg.fromSaves) s1 s2) fs) ∧
       FinOK cfg (runPhases (restPhases cfg ord rs (sk || cfg.fromSaves) s1 s2) fs).fs := by
   unfold restPhases
@@ -92,7 +94,9 @@ theorem rest_run_pool {cfg : Cfg} (wf : WF cfg) (ord : List Path) (hord : ord.No
   have hnp1 : cfg.fromSaves = true → rs = false → ∀ c ∈ cfg.chrs,
       (runActs (rgStage cfg rs fs) fs).fs.has (.processed c) = false := by
     intro e e' c hc; rw [FS.has, f1 _ rfl]; exact hnp0 e e' c hc
-  clear g1 f1 hsk hnsk h hsv hnp0
+  have href1 : refOK cfg (runActs (rgStage cfg rs fs) fs).fs = true := by
+    simp only [refOK, FS.good] at href ⊢; rw [f1 _ rfl]; exact href
+  clear g1 f1 hsk hnsk h hsv hnp0 href
   generalize (runActs (rgStage cfg rs fs) fs).fs = fs1 at *
   -- stale locks
   obtain ⟨g2, f2, r2, e2, n2⟩ := collectPre_stage wf rs skc j1
@@ -121,10 +125,12 @@ theorem rest_run_pool {cfg : Cfg} (wf : WF cfg) (ord : List Path) (hord : ord.No
       exact ((n2 (by simp [e, hq'])).2 c hc).2
   have hsv2 : cfg.fromSaves = true → SavesOK cfg (runActs (collectPre cfg rs skc fs1) fs1).fs := by
     intro e; rw [e2 (by subst hskc; simp [e])]; exact hsv1 e
-  clear g2 f2 r2 e2 n2 rg1 hsk1 hnsk1 j1 hsv1 hnp1
+  have href2 : refOK cfg (runActs (collectPre cfg rs skc fs1) fs1).fs = true := by
+    simp only [refOK, FS.good] at href1 ⊢; rw [f2 _ rfl]; exact href1
+  clear g2 f2 r2 e2 n2 rg1 hsk1 hnsk1 j1 hsv1 hnp1 href1
   generalize (runActs (collectPre cfg rs skc fs1) fs1).fs = fs2 at *
   -- read collection: one task per chromosome, any schedule
-  obtain ⟨g3, p3, f3⟩ := collect_pool rs skc s1 j2 rg2 hnl2 hnc2
+  obtain ⟨g3, p3, f3⟩ := collect_pool rs skc s1 j2 rg2 hnl2 hnc2 href2
   have j3 := good_J_pool g3
   refine seq_cons_pool (Q := FinOK cfg) g3 ?_
   have hsk3 : sk = true → (poolStage (collectChr fixed cfg rs skc) cfg.chrs s1 fs2).fs.has .lock = true := by
@@ -139,7 +145,9 @@ theorem rest_run_pool {cfg : Cfg} (wf : WF cfg) (ord : List Path) (hord : ord.No
     have hq : skc = true := by subst hskc; simp [e]
     -- with no collection every task is empty
     rw [(poolStage_skip _ _ _ _ (fun c _ => by subst hq; simp [collectChr])).1]; exact hsv2 e
-  clear g3 f3 rg2 hsk2 hnl2 hnc2 hnp2 j2 hsv2
+  have href3 : refOK cfg (poolStage (collectChr fixed cfg rs skc) cfg.chrs s1 fs2).fs = true := by
+    simp only [refOK, FS.good] at href2 ⊢; rw [f3 _ (fun _ _ => rfl)]; exact href2
+  clear g3 f3 rg2 hsk2 hnl2 hnc2 hnp2 j2 hsv2 href2
   generalize (poolStage (collectChr fixed cfg rs skc) cfg.chrs s1 fs2).fs = fs3 at *
   -- multimappers, info, stage lock
   obtain ⟨g4, l4, e4, f4⟩ := collectPost_stage skc j3 hnl3 p3
@@ -154,7 +162,9 @@ theorem rest_run_pool {cfg : Cfg} (wf : WF cfg) (ord : List Path) (hord : ord.No
       · rw [e4 hq]; exact hsv3 hf
     · have hq' : skc = false := by simpa using hq
       exact savesOK_of_lock j4 (l4 hq')
-  clear g4 f4 hsk3 hnl3 hnp3 p3 j3 l4 e4 hsv3
+  have href4 : refOK cfg (runActs (collectPost cfg skc fs3) fs3).fs = true := by
+    simp only [refOK, FS.good] at href3 ⊢; rw [f4 _ rfl]; exact href3
+  clear g4 f4 hsk3 hnl3 hnp3 p3 j3 l4 e4 hsv3 href3
   generalize (runActs (collectPost cfg skc fs3) fs3).fs = fs4 at *
   -- final files opened
   obtain ⟨g5, f5⟩ := constructPre_stage j4 sv4
@@ -164,10 +174,12 @@ theorem rest_run_pool {cfg : Cfg} (wf : WF cfg) (ord : List Path) (hord : ord.No
     savesOK_frame sv4 (f5 _ rfl) (fun _ => f5 _ rfl) (fun _ => f5 _ rfl)
   have hnp5 : rs = false → ∀ c ∈ cfg.chrs, (runActs (constructPre cfg fs4) fs4).fs.has (.processed c) = false := by
     intro e c hc; rw [FS.has, f5 _ rfl]; exact hnp4 e c hc
-  clear g5 f5 sv4 hnp4 j4
+  have href5 : refOK cfg (runActs (constructPre cfg fs4) fs4).fs = true := by
+    simp only [refOK, FS.good] at href4 ⊢; rw [f5 _ rfl]; exact href4
+  clear g5 f5 sv4 hnp4 j4 href4
   generalize (runActs (constructPre cfg fs4) fs4).fs = fs5 at *
   -- model construction: one task per chromosome, any schedule
-  obtain ⟨g6, p6, f6⟩ := construct_pool rs s2 j5 sv5 hnp5
+  obtain ⟨g6, p6, f6⟩ := construct_pool rs s2 j5 sv5 hnp5 href5
   have j6 := good_J_pool g6
   refine seq_cons_pool (Q := FinOK cfg) g6 ?_
   have hout6 : ∀ c ∈ cfg.chrs, ∀ d ∈ chrOutputs cfg c,
@@ -273,8 +285,9 @@ theorem saves_untouched_pool {cfg : Cfg} (wf : WF cfg) (hm : cfg.fromSaves = tru
   simp only [phases, List.mem_cons, List.mem_append, List.not_mem_nil, or_false] at hp
   have hin : ∀ s, s ∈ stages fixed cfg ord rs sk → s ∈ forceClean fixed cfg rs :: stages fixed cfg ord rs sk :=
     fun s hs => List.mem_cons_of_mem _ hs
-  rcases hp with rfl | (rfl | rfl | rfl | rfl | rfl | rfl | rfl | rfl | rfl) | hp
+  rcases hp with rfl | (rfl | rfl | rfl | rfl | rfl | rfl | rfl | rfl | rfl | rfl) | hp
   · exact hseq _ (by simp)
+  · exact hseq _ (hin _ (by simp [stages]))
   · exact hseq _ (hin _ (by simp [stages]))
   · exact hseq _ (hin _ (by simp [stages]))
   · exact hseq _ (hin _ (by simp [stages]))
@@ -285,6 +298,27 @@ theorem saves_untouched_pool {cfg : Cfg} (wf : WF cfg) (hm : cfg.fromSaves = tru
   · exact hseq _ (hin _ (by simp [stages]))
   · exact hseq _ (hin _ (by simp [stages]))
   · simp only [hm, Bool.or_true, if_true, List.not_mem_nil] at hp
+
+/-- `rest_run_pool` with the reference stage (main process) in front: everything after `.params` -/
+theorem rest_run_pool_ref {cfg : Cfg} (wf : WF cfg) (ord : List Path) (hord : ord.Nodup) (rs sk : Bool) (s1 s2 : List Chr)
+    {fs : FS} (h : J cfg fs)
+    (hskrs : sk = true → rs = true) (hsk : sk = true → fs.has .lock = true)
+    (hnsk : sk = false → cfg.fromSaves = false → rs = true → fs.has .lock = false)
+    (hsv : cfg.fromSaves = true → SavesOK cfg fs)
+    (hnp0 : cfg.fromSaves = true → rs = false → ∀ c ∈ cfg.chrs, fs.has (.processed c) = false) :
+    Good cfg fs (runPhases (.seq (refStage fixed cfg rs) :: restPhases cfg ord rs (sk || cfg.fromSaves) s1 s2) fs) ∧
+      FinOK cfg (runPhases (.seq (refStage fixed cfg rs) :: restPhases cfg ord rs (sk || cfg.fromSaves) s1 s2) fs).fs := by
+  obtain ⟨g0, _, f0, r0⟩ := ref_stage rs h
+  refine seq_cons_seq (Q := FinOK cfg) g0 ?_
+  apply rest_run_pool wf ord hord rs sk s1 s2 (good_J_acts g0) hskrs
+  · intro e; rw [FS.has, f0 _ (by simp)]; exact hsk e
+  · intro e e' e''; rw [FS.has, f0 _ (by simp)]; exact hnsk e e' e''
+  · intro e; exact savesOK_frame (hsv e) (f0 _ (by simp)) (fun _ => f0 _ (by simp)) (fun _ => f0 _ (by simp))
+  · intro e e' c hc; rw [FS.has, f0 _ (by simp)]; exact hnp0 e e' c hc
+  · simp only [refOK, Bool.or_eq_true, Bool.not_eq_true']
+    cases hg : cfg.gzRef with
+    | false => exact Or.inl rfl
+    | true => exact Or.inr (r0 hg)
 
 /-- a fresh pool run = the removal of the lock files found, then the run on the cleaned folder -/
 theorem runPool_split {cfg : Cfg} (wf : WF cfg) (ord : List Path) (s1 s2 : List Chr) (fs : FS) :
